@@ -183,7 +183,7 @@ let promise_case (toks : string list) : string =
           | _ -> M.PNew)
       | 'R' -> (match String.split_on_char ':' body with [ p; v ] -> M.PResolve (nat_of_int (int_of_string p), n_of_int (int_of_string v)) | _ -> M.PNew)
       | 'J' -> (match String.split_on_char ':' body with [ p; v ] -> M.PReject (nat_of_int (int_of_string p), n_of_int (int_of_string v)) | _ -> M.PNew)
-      | 'A' -> M.PAll (List.map (fun x -> nat_of_int (int_of_string x)) (String.split_on_char ',' body))
+      | 'A' | 'V' -> M.PAll (List.map (fun x -> nat_of_int (int_of_string x)) (String.split_on_char ',' body))
       | _ -> M.PAny (List.map (fun x -> nat_of_int (int_of_string x)) (String.split_on_char ',' body)) in
     let st = M.run_prog (List.map parse ops) in
     let ev = function
